@@ -326,11 +326,15 @@ impl SvgElement {
 //@ replace[R-recursion] <<<target_el.size(ctx)?>>> => <<<target_el.target_size(ctx)?>>>
 //@ replace-re[R-optmap] <<<self\.attrs\.get\("(\w+)"\)\.map\(\|n\| strp\(n\)\)\.transpose\(\)\?>>> => <<<opt_strp_ref(self.attrs.get("\1"))?>>>
 //@ ensures
-//@ - self.name@ == "circle"@ && r is Ok ==> (match num(self.attrs@, "r"@) { Some(rr) => r->Ok_0 is Some && val(r->Ok_0->Some_0.0) == rr * 2real && val(r->Ok_0->Some_0.1) == rr * 2real,
+//@ - self.name@ == "circle"@ && r is Ok && !self.attrs@.dom().contains("rx"@) && !self.attrs@.dom().contains("ry"@) ==> (match num(self.attrs@, "r"@) { Some(rr) => r->Ok_0 is Some && val(r->Ok_0->Some_0.0) == rr * 2real && val(r->Ok_0->Some_0.1) == rr * 2real,
 //@       None => (r->Ok_0 is Some) == (self.attrs@.dom().contains("width"@) || self.attrs@.dom().contains("height"@)) })     @@C09.size.circle
-//@ - self.name@ == "circle"@ && r is Ok && !self.attrs@.dom().contains("r"@) && self.attrs@.dom().contains("width"@) && !self.attrs@.dom().contains("height"@) ==>
+//@ - (self.name@ == "circle"@ || self.name@ == "ellipse"@) && r is Ok && num(self.attrs@, "rx"@) is Some && num(self.attrs@, "ry"@) is Some ==>
+//@       r->Ok_0 is Some && val(r->Ok_0->Some_0.0) == num(self.attrs@, "rx"@)->Some_0 * 2real && val(r->Ok_0->Some_0.1) == num(self.attrs@, "ry"@)->Some_0 * 2real     @@C09.size.radius_spellings @@C11.size.radius_spellings
+//@ - self.name@ == "ellipse"@ && r is Ok && num(self.attrs@, "r"@) is Some && !self.attrs@.dom().contains("rx"@) && !self.attrs@.dom().contains("ry"@) ==>
+//@       r->Ok_0 is Some && val(r->Ok_0->Some_0.0) == num(self.attrs@, "r"@)->Some_0 * 2real && val(r->Ok_0->Some_0.1) == num(self.attrs@, "r"@)->Some_0 * 2real     @@C09.size.radius_spellings @@C11.size.radius_spellings
+//@ - self.name@ == "circle"@ && r is Ok && !self.attrs@.dom().contains("r"@) && !self.attrs@.dom().contains("rx"@) && !self.attrs@.dom().contains("ry"@) && self.attrs@.dom().contains("width"@) && !self.attrs@.dom().contains("height"@) ==>
 //@       r->Ok_0 is Some && val(r->Ok_0->Some_0.0) == num(self.attrs@, "width"@)->Some_0 && val(r->Ok_0->Some_0.1) == num(self.attrs@, "width"@)->Some_0     @@C09.size.circle_one_dimension
-//@ - self.name@ == "circle"@ && r is Ok && !self.attrs@.dom().contains("r"@) && self.attrs@.dom().contains("height"@) && !self.attrs@.dom().contains("width"@) ==>
+//@ - self.name@ == "circle"@ && r is Ok && !self.attrs@.dom().contains("r"@) && !self.attrs@.dom().contains("rx"@) && !self.attrs@.dom().contains("ry"@) && self.attrs@.dom().contains("height"@) && !self.attrs@.dom().contains("width"@) ==>
 //@       r->Ok_0 is Some && val(r->Ok_0->Some_0.0) == num(self.attrs@, "height"@)->Some_0 && val(r->Ok_0->Some_0.1) == num(self.attrs@, "height"@)->Some_0     @@C09.size.circle_one_dimension
 //@ - self.name@ == "line"@ && r is Ok && self.attrs@.dom().contains("width"@) && !self.attrs@.dom().contains("height"@)
 //@     && !self.attrs@.dom().contains("x1"@) && !self.attrs@.dom().contains("x2"@) && !self.attrs@.dom().contains("y1"@) && !self.attrs@.dom().contains("y2"@) ==>
